@@ -26,6 +26,7 @@
 //	cache oracle <n> [<shard> <nshards>]       property oracle: real code against a flat reference, no Lean model
 //	cache oracleclean|oracleryw <n> [<shard> <nshards>]  the same on the restricted classes (no deviation is excusable there)
 //	cache refcheck                             the oracle's judgement of the histories given on stdin
+//	cache conc <rounds> [<shard> <nshards>] [only=<round>] [repeat=<n>] [kinds=…]   C07, concurrent family (conc.go)
 package main
 
 import (
@@ -493,6 +494,11 @@ func main() {
 		n := num()
 		s, ns := fsdrv.ShardArgs(os.Args[3:])
 		oracle(w, n, s, ns, map[string]int{"oracle": 0, "oracleclean": 1, "oracleryw": 2}[os.Args[1]])
+	case "conc":
+		if len(os.Args) < 3 {
+			usage()
+		}
+		conc(w, os.Args[2:])
 	case "refcheck":
 		refcheck(scanner(), w)
 	default:
